@@ -1,6 +1,111 @@
-// poly kinds -- filled in by the corresponding check (see /verif/CONVENTIONS.md).
-#![allow(unused_imports, dead_code)]
+// Polynomial kinds (C11, C12): poly.ring, poly.calc, poly.access, poly.ctor, poly.div.
+// Only the public API of ohsl::Polynomial is used (new/empty/quadratic/cubic, size, degree, index,
+// eval, is_zero, trim, derivative*, the operator impls, polydiv).  The printed streams are mirrored
+// by run_ring / run_calc / run_access / run_ctor / run_div of coq/Model/Poly.v.
+use std::panic::{catch_unwind, AssertUnwindSafe};
+use ohsl::Polynomial;
 use crate::io::{Args, Out, Elt};
-pub fn run<T: Elt>(kind: &str, _a: &mut Args, _out: &mut Out) {
-    panic!("harness: unknown kind {}", kind);
+
+fn poly<T: Elt>(a: &mut Args) -> Polynomial<T> { Polynomial::new(a.vec_std::<T>()) }
+
+// coefficients through size() and the (guarded) index operator
+fn dump<T: Elt>(p: &Polynomial<T>, out: &mut Out) {
+    out.usize(p.size());
+    for i in 0..p.size() { out.s(&p[i]); }
+}
+fn toks<T: Elt>(p: &Polynomial<T>) -> Vec<String> { let mut o = Out::new(); dump(p, &mut o); o.toks }
+fn deg<T: Elt>(p: &Polynomial<T>, out: &mut Out) {
+    match p.degree() { Ok(d) => out.int(d as i128), Err(_) => out.int(-1) }
+}
+fn check_same<T: Elt>(p: &Polynomial<T>, snap: &Vec<String>, what: &str) {
+    if &toks(p) != snap { panic!("harness: operand mutated by {}", what); }
+}
+fn check_forms<T: Elt>(r: &Polynomial<T>, r2: &Polynomial<T>, what: &str) {
+    if toks(r) != toks(r2) { panic!("harness: owned/borrowed forms differ ({})", what); }
+}
+
+// run f; a library panic becomes a P<class> token and the stream continues (machinery errors propagate)
+fn guarded<F: FnOnce(&mut Out)>(out: &mut Out, f: F) {
+    let mut local = Out::new();
+    let r = catch_unwind(AssertUnwindSafe(|| f(&mut local)));
+    match r {
+        Ok(()) => out.toks.extend(local.toks),
+        Err(_) => {
+            let msg = crate::LAST_PANIC.with(|p| p.borrow().clone());
+            let cls = crate::classify(&msg);
+            if cls == "harness" || cls == "ratovf" { panic!("{}", msg); }
+            out.toks.push(format!("P{}", cls));
+        }
+    }
+}
+
+pub fn run<T: Elt>(kind: &str, a: &mut Args, out: &mut Out) {
+    match kind {
+        // poly.ring <p> <q> <x> <s>: p+q p-q p*q -p p*s q+p q-p q*p (coefficients, degree), then eval at x of
+        // p, q and the eight results (each eval guarded: the empty polynomial panics)
+        "poly.ring" => {
+            let p = poly::<T>(a); let q = poly::<T>(a); let x = a.s::<T>(); let s = a.s::<T>();
+            let (sp, sq) = (toks(&p), toks(&q));
+            let add = &p + &q; let sub = &p - &q; let mul = &p * &q; let neg = -&p; let sc = &p * s;
+            let add2 = &q + &p; let sub2 = &q - &p; let mul2 = &q * &p;
+            check_same(&p, &sp, "polynomial operators"); check_same(&q, &sq, "polynomial operators");
+            check_forms(&add, &(p.clone() + q.clone()), "+"); check_forms(&sub, &(p.clone() - q.clone()), "-");
+            check_forms(&mul, &(p.clone() * q.clone()), "*"); check_forms(&neg, &(-p.clone()), "neg");
+            check_forms(&sc, &(p.clone() * s), "*s");
+            let rs = [add, sub, mul, neg, sc, add2, sub2, mul2];
+            for r in rs.iter() { dump(r, out); deg(r, out); }
+            guarded(out, |o| o.s(&p.eval(x)));
+            guarded(out, |o| o.s(&q.eval(x)));
+            for r in rs.iter() { guarded(out, |o| o.s(&r.eval(x))); }
+        }
+        // poly.calc <p> <q> <x> <s> <nmax>: derivative_n(p, n), derivative_at(p, x, n) for n = 0..=nmax; then
+        // (p+q)'  p'+q'  (p*q)'  p'*q + p*q'  (p*s)'  p'*s     (each guarded)
+        "poly.calc" => {
+            let p = poly::<T>(a); let q = poly::<T>(a); let x = a.s::<T>(); let s = a.s::<T>(); let nmax = a.usize();
+            let sp = toks(&p);
+            for n in 0..=nmax {
+                guarded(out, |o| dump(&p.derivative_n(n), o));
+                guarded(out, |o| o.s(&p.derivative_at(x, n)));
+            }
+            check_same(&p, &sp, "derivative_n/derivative_at");
+            guarded(out, |o| dump(&(&p + &q).derivative(), o));
+            guarded(out, |o| { let dp = p.derivative(); let dq = q.derivative(); dump(&(&dp + &dq), o) });
+            guarded(out, |o| dump(&(&p * &q).derivative(), o));
+            guarded(out, |o| { let dp = p.derivative(); let dq = q.derivative(); dump(&(&(&dp * &q) + &(&p * &dq)), o) });
+            guarded(out, |o| dump(&(&p * s).derivative(), o));
+            guarded(out, |o| { let dp = p.derivative(); dump(&(&dp * s), o) });
+            check_same(&p, &sp, "derivative");
+        }
+        // poly.access <p> <i> <x>: size, degree, is_zero, p[i], p[i] = x (then p), trim (then p)
+        "poly.access" => {
+            let p = poly::<T>(a); let i = a.usize(); let x = a.s::<T>();
+            out.usize(p.size()); deg(&p, out); out.boolean(p.is_zero());
+            guarded(out, |o| o.s(&p[i]));
+            guarded(out, |o| { let mut c = p.clone(); c[i] = x; dump(&c, o) });
+            guarded(out, |o| { let mut c = p.clone(); c.trim(); dump(&c, o) });
+        }
+        // poly.ctor <a> <b> <c> <d>: quadratic(a,b,c), cubic(a,b,c,d), empty()
+        "poly.ctor" => {
+            let (ca, cb, cc, cd) = (a.s::<T>(), a.s::<T>(), a.s::<T>(), a.s::<T>());
+            dump(&Polynomial::quadratic(ca, cb, cc), out);
+            dump(&Polynomial::cubic(ca, cb, cc, cd), out);
+            let e = Polynomial::<T>::empty(); dump(&e, out); deg(&e, out);
+        }
+        // poly.div <u> <v>: 0 q r | 1 (divide by zero polynomial) | 2 (exceeded maximum iterations); a panic ends the answer
+        "poly.div" => {
+            let u = poly::<T>(a); let v = poly::<T>(a);
+            let (su, sv) = (toks(&u), toks(&v));
+            let r = u.polydiv(&v);
+            check_same(&u, &su, "polydiv"); check_same(&v, &sv, "polydiv");
+            match r {
+                Ok((q, r)) => { out.int(0); dump(&q, out); dump(&r, out); }
+                Err(msg) => {
+                    if msg.contains("divide by zero") { out.int(1); }
+                    else if msg.contains("maximum iterations") { out.int(2); }
+                    else { out.int(3); }   // any other Err (degree() of an empty polynomial): never expected
+                }
+            }
+        }
+        _ => panic!("harness: unknown kind {}", kind),
+    }
 }
